@@ -9,7 +9,7 @@ use crate::entry::{is_timeout_class, Call, Entry};
 use crate::harness::{run_call, run_in_world};
 use crate::models::gamespy::{Gs1Server, Gs1State, Gs2Server, Gs2State, Gs3Server, Gs3State};
 use crate::models::minecraft::{McHost, McTcpServer, McUdpServer, Variant};
-use crate::models::misc::{FfowState, MindustryState, OneShotServer, Savage2State};
+use crate::models::misc::{EcoState, FfowState, HttpFraming, HttpTcpServer, MindustryState, OneShotServer, Savage2State};
 use crate::models::quake::{QuakeServer, QuakeState};
 use crate::models::unreal2::{Unreal2Server, Unreal2State};
 use crate::models::valve::{ValveServer, ValveState};
@@ -31,7 +31,7 @@ pub struct C12;
 const V4: IpAddr = IpAddr::V4(Ipv4Addr::new(192, 0, 2, 10));
 const V6: IpAddr = IpAddr::V6(Ipv6Addr::new(0x2001, 0xdb8, 0, 0, 0, 0, 0, 0x10));
 
-const FAMILIES: u64 = 14;
+const FAMILIES: u64 = 15;
 
 struct Fam {
     name: &'static str,
@@ -55,12 +55,13 @@ fn timeout_choice(t: &mut Tape) -> (Option<TimeoutSettings>, u64, Option<u64>, u
         return (None, 4 * SEC, Some(4 * SEC), 0);
     }
     let r = pick(t);
-    let w = pick(t);
+    // a write timeout of None is legal as well (reads stay bounded)
+    let w = if t.draw(CFG, 6) == 0 { None } else { Some(pick(t)) };
     // a connect timeout of None is legal: connect blocks as long as the kernel tries, reads stay bounded
     let c = if t.draw(CFG, 5) == 0 { None } else { Some(pick(t)) };
     let retries = t.draw(CFG, 3);
     (
-        Some(TimeoutSettings::new(Some(r), Some(w), c, retries as usize).unwrap()),
+        Some(TimeoutSettings::new(Some(r), w, c, retries as usize).unwrap()),
         r.as_nanos() as u64,
         c.map(|c| c.as_nanos() as u64),
         retries,
@@ -165,10 +166,24 @@ fn build(fam: u64, ip: IpAddr, port: u16, ts: Option<TimeoutSettings>, t: &mut T
             w.add_server(addr, Proto::Udp, Box::new(Gs3Server::new(st, p)));
             Fam { name: "jc2m", call: call(Entry::Jc2m { with_timeout: true }), tcp: false, k: 1 }
         }
-        _ => {
+        13 => {
             let st = ValveState::generate(t, true, false, Some(2400), 4, 4);
             w.add_server(addr, Proto::Udp, Box::new(ValveServer::new(st)));
             Fam { name: "theship", call: call(Entry::TheShip { with_timeout: true }), tcp: false, k: 3 }
+        }
+        _ => {
+            // the HTTP game: the real HTTP client over the simulated TCP transport
+            let st = EcoState::generate(t);
+            let framing = match t.draw(CFG, 3) {
+                0 => HttpFraming::ContentLength,
+                1 => HttpFraming::Chunked(vec![1 + t.draw(CFG, 400) as usize]),
+                _ => HttpFraming::UntilClose,
+            };
+            let mut srv = HttpTcpServer::new(st.body(), framing);
+            srv.close_after = t.draw(CFG, 2) == 0;
+            w.add_server(addr, Proto::Tcp, Box::new(srv));
+            // connect, response head, body
+            Fam { name: "eco-http", call: call(Entry::Eco { level: 1 }), tcp: true, k: 3 }
         }
     }
 }
@@ -357,7 +372,9 @@ impl Prop for C12 {
                     fault_name = "accepts-then-silent";
                 }
                 3 => {
-                    w.net.tcp_byte_budget = Some(1 + t.draw(CFG, 40));
+                    // HTTP: also in the middle of the headers or of the body
+                    let span = if fam.name == "eco-http" { 1500 } else { 40 };
+                    w.net.tcp_byte_budget = Some(1 + t.draw(CFG, span));
                     fault_name = "stalls-mid-stream";
                 }
                 4 => {
@@ -377,7 +394,7 @@ impl Prop for C12 {
         let name = fam.name;
         // ---- oracle 1: every socket got the configured timeouts, every blocking call was bounded by them
         let mut problems: Vec<(String, String, String, String)> = Vec::new();
-        let write_ns = fam.call.timeout.map_or(4 * SEC, |t| t.get_write().map_or(0, |d| d.as_nanos() as u64));
+        let write_cfg: Option<u64> = fam.call.timeout.map_or(Some(4 * SEC), |t| t.get_write().map(|d| d.as_nanos() as u64));
         // without a connect timeout the kernel gives up after about 127 s of SYN retries
         let connect_bound = connect_ns.unwrap_or(127 * SEC);
         let mut timeout_waits = 0u64;
@@ -397,7 +414,8 @@ impl Prop for C12 {
                         read_set.insert(*sock, None);
                         write_set.insert(*sock, None);
                     }
-                    if *timeout != connect_ns {
+                    // (with no connect timeout configured the HTTP client applies its own default, which is a bound too)
+                    if *timeout != connect_ns && !(name == "eco-http" && connect_ns.is_none()) {
                         problems.push((format!("{name}|connect-timeout-not-applied"), "TCP connect was not given the configured connect timeout".into(), format!("{connect_ns:?} ns"), format!("{timeout:?}")));
                     }
                     if *waited > connect_bound.saturating_add(10 * MS) {
@@ -429,8 +447,8 @@ impl Prop for C12 {
                     }
                 }
                 Hist::UdpSend { sock, .. } | Hist::TcpWrite { sock, .. } => {
-                    if write_set.get(sock).copied().flatten() != Some(write_ns) {
-                        problems.push((format!("{name}|write-timeout-not-applied"), "a send was issued on a socket without the configured write timeout".into(), format!("{write_ns} ns"), format!("{:?}", write_set.get(sock))));
+                    if write_set.get(sock).copied().flatten() != write_cfg {
+                        problems.push((format!("{name}|write-timeout-not-applied"), "a send was issued on a socket without the configured write timeout".into(), format!("{write_cfg:?} ns"), format!("{:?}", write_set.get(sock))));
                     }
                 }
                 _ => {}
